@@ -27,3 +27,6 @@ func VerifDump(aq AsyncTaskQueue, dummy unsafe.Pointer) (headPos, tailPos, chain
 	}
 	return headPos, tailPos, i, q.length
 }
+
+// VerifDummy returns the current head node of a quiescent, freshly created queue.
+func VerifDummy(aq AsyncTaskQueue) unsafe.Pointer { return aq.(*lockFreeQueue).head }
